@@ -51,6 +51,11 @@ prop("C03",
      harnesses=[
          H("txfile.VerifProgStore", "from-init symbolic program against a reference model: read-your-writes, committed view, reopen",
            "ntx=1,nops=2 (quick)", quick={"params": {"ntx": 1, "nops": 2}}, thorough={"params": {"ntx": 2, "nops": 2, "nops2": 1}, "max_paths": 200000, "budget": "1500s"}),
+         H("txfile.VerifProgStore", "overwrite log focus: overwrite / read-only access / Flush with WALLimit=2 (automatic checkpoints), 2 committed transactions",
+           "ops {overwrite, read, flush}, 2x2 ops (thorough: 3 transactions; and the 7-op set)", quick={"params": {"walops": 2, "wallimit": 2, "ntx": 2, "nops": 2, "nops2": 2}},
+           thorough={"params": {"walops": 2, "wallimit": 2, "ntx": 3, "nops": 2, "nops2": 2}, "max_paths": 300000, "budget": "1500s"}),
+         H("txfile.VerifProgStore", "same with the 7-operation overwrite-log set and 3 committed pages", "walops=1", tiers=("thorough",),
+           thorough={"params": {"walops": 1, "wallimit": 2, "setup": 3, "ntx": 2, "nops": 2, "nops2": 2}, "max_paths": 300000, "budget": "1500s"}),
          H("txfile.VerifWriterOrder", "real background writer: per page the last scheduled write is the last one issued, syncs separate what was scheduled before/after them; sort.Slice ties nondeterministic",
            "3 messages (thorough 4) with symbolic page ids out of 2 (thorough 3), symbolic sync positions, writer runs when the producer blocks (thorough: 2 preemptions at sync operations)",
            thorough={"params": {"msgs": 4, "ids": 3, "preempt": 2}, "max_paths": 200000, "budget": "1200s"}),
@@ -72,10 +77,15 @@ def variants(entry, what, quick_params, thorough_params, vs=(0, 1, 2, 3, 4), qui
                      tiers=tiers, quick={"params": q}, thorough={"params": t, "max_paths": 300000, "budget": "1200s"}, **kw))
     return out
 
+FREECYCLE = H("txfile.VerifProgFreeCycle", "10 committed pages, two transactions that only free 1-2 (thorough 1-4) pages each (last or second page), then alloc/overwrite, reopen: partition, contents, space after every commit",
+              "maxfree=2 nops=2 (thorough 4/3)", thorough={"params": {"maxfree": 4, "nops": 3}, "max_paths": 300000, "budget": "1500s"})
+OVERFLOW = H("txfile.VerifProgOverflow", "bounded file with a full data area; a transaction with the overflow area enabled overwrites 1-3 pages (optional Flush), commit or rollback, reopen, then frees: partition, contents, snapshot after rollback",
+             "InitMetaArea=2 (thorough also 0 and 4, WALLimit 1)", thorough={"params": {"metaarea": 0, "wallimit": 1, "maxover": 4}})
+
 # ------------------------------------------------------------------ C07
 prop("C07", bounds=PROG_BOUNDS, outside=PROG_OUT,
      harnesses=variants("txfile.VerifProgAbort", "aborted transaction (Rollback/Close) vs. snapshot at Begin: allocator partition, markers, meta area, overwrite log, header, stats, file size, follow-up allocations",
-                        {"nops": 2, "pre": 1}, {"nops": 3, "pre": 2}, quick_vs=(0, 2)))
+                        {"nops": 2, "pre": 1}, {"nops": 3, "pre": 2}, quick_vs=(0, 2)) + [OVERFLOW])
 
 # ------------------------------------------------------------------ C04
 REG_LEMMAS_QUICK = [
@@ -96,13 +106,13 @@ REG_LEMMAS_THOROUGH = [
 ]
 
 prop("C04", bounds=PROG_BOUNDS, outside=PROG_OUT,
-     harnesses=REG_LEMMAS_QUICK + REG_LEMMAS_THOROUGH + variants("txfile.VerifProgOwn", "every id returned by Alloc/AllocN is >= 2, not live, not freed-but-committed, not internal; ownership partition after every commit",
+     harnesses=REG_LEMMAS_QUICK + REG_LEMMAS_THOROUGH + [FREECYCLE, OVERFLOW] + variants("txfile.VerifProgOwn", "every id returned by Alloc/AllocN is >= 2, not live, not freed-but-committed, not internal; ownership partition after every commit",
                         {"nops": 3, "ntx": 1}, {"nops": 2, "ntx": 2}, quick_vs=(0, 1)))
 
 # ------------------------------------------------------------------ C11
 prop("C11", bounds=PROG_BOUNDS, outside=PROG_OUT,
      harnesses=variants("txfile.VerifProgOwn", "allocatable + live + meta area + 2 == max pages, extent <= max, FileStats == model after every commit",
-                        {"nops": 3, "ntx": 1}, {"nops": 2, "ntx": 2}, vs=(0, 1, 4), quick_vs=(0, 4)))
+                        {"nops": 3, "ntx": 1}, {"nops": 2, "ntx": 2}, vs=(0, 1, 4, 5), quick_vs=(0, 5)) + [FREECYCLE])
 
 CHECKS["C10"]["harnesses"] += [
     H("txfile.VerifFreelistSerialize", "readFreeList(writeFreeLists(meta, data)) == (meta, data) over several 64-byte pages; chain links exactly the allocated pages; the predictor never under-estimates", "<= 2 meta + 4 data regions, 64-bit ids, 32-bit counts",
@@ -111,6 +121,7 @@ CHECKS["C10"]["harnesses"] += [
 ]
 CHECKS["C10"]["harnesses"] += variants("txfile.VerifProgReopen", "reopened instance == running instance (free lists, markers, meta area, overwrite log, root, stats, allocatable pages), then one more symbolic transaction",
                                         {"nops": 2, "ntx": 1, "nops2": 1}, {"nops": 3, "ntx": 2, "nops2": 1}, quick_vs=(0, 4))
+CHECKS["C10"]["harnesses"].append(OVERFLOW)
 CHECKS["C10"]["bounds"] += "; " + PROG_BOUNDS
 
 # ------------------------------------------------------------------ C16
@@ -171,8 +182,11 @@ prop("C14",
      bounds="file created with a 128-page limit (page size 1024), 2 written pages, 0 / 68 / 100 further allocated pages, optionally 3 pages freed (end of file and middle); "
             "reopened with FlagUpdMaxSize and a limit of 64 / 96 / 160 pages or unbounded, with and without Prealloc; then 2 transactions (10 overwrites, 3 allocations), plain reopen",
      outside="other size combinations and longer histories after the resize; the leaks O1/O2 of DESIGN.md section 4 (pages owned by nobody in the shrink transition) are not part of the statement",
-     harnesses=[H("txfile.VerifResize", "data and root intact, no blocking, exact avail delta when growing, extent bound after shrinking, plain reopen reports the new limit", "3 fills x freesome x 4 new limits x prealloc",
-                  thorough={"params": {"rounds": 3, "metaarea": 8}})])
+     harnesses=[H("txfile.VerifResize", "data and root intact, no blocking, exact avail delta when growing, extent bound after shrinking, active header and plain reopen report the new limit (rounded down), "
+                  "optional I/O failure during the update, second resize", "3 fills x 3 free patterns x 4 new limits (aligned/unaligned) x prealloc x {no fault, write, sync} x 3 ordinals x second limit",
+                  thorough={"params": {"rounds": 3, "resizefaults": 5}, "max_paths": 300000}),
+                H("txfile.VerifResize", "same with InitMetaArea=8 (free regions border the end of the file, so the page-releasing transaction of a shrink runs)", "metaarea=8",
+                  quick={"params": {"metaarea": 8}}, thorough={"params": {"metaarea": 8, "rounds": 3, "resizefaults": 5}, "max_paths": 300000})])
 
 # ------------------------------------------------------------------ C09
 LOCK_BOUNDS = ("real lock object: 2 readers + 2 writers with 1 preemption, 2 readers + 1 writer with 2 preemptions (thorough: 2+2 with 2, 3+1 with 2); "
@@ -222,6 +236,8 @@ prop("C05", bounds=PQ_BOUNDS, outside=PQ_OUT,
          H("pq.VerifQueueFIFO", "every flushed event is delivered exactly once, in order, byte-identical; Next sizes; Read never merges events; nothing beyond the last flushed event; counters",
            "2 events x 4 sizes (quick) / 3 events x 4 sizes, 2 events x 8 sizes (thorough)",
            quick={"params": {"events": 2, "nsizes": 4}}, thorough={"params": {"events": 3, "nsizes": 4}, "max_paths": 400000, "budget": "1500s"}),
+         H("pq.VerifQueueFIFO", "consumer abandons events (Next after no / partial Read), reaches the tail, more events arrive", "2 events x 2 sizes x 3 read modes (thorough 3 sizes)",
+           quick={"params": {"events": 2, "nsizes": 2, "skip": 1}}, thorough={"params": {"events": 2, "nsizes": 3, "skip": 1}, "max_paths": 400000, "budget": "1500s"}),
          H("pq.VerifQueueFIFO", "same, all 8 boundary sizes, reads interleaved with writes", "2 events x 8 sizes", tiers=("thorough",),
            thorough={"params": {"events": 2, "nsizes": 8, "readearly": 1}, "max_paths": 400000, "budget": "1500s"}),
          H("pq.VerifQueueReopen", "close/reopen at a symbolic point keeps order and content", "2 events x 3 sizes", quick={"params": {"events": 2, "nsizes": 3}},
@@ -252,6 +268,8 @@ prop("C17", bounds=PQ_BOUNDS, outside=PQ_OUT,
          H("pq.VerifQueueFIFO", "Pending == Active == flushed - ACKed at every quiescent point, Reader.Available == flushed - consumed, Flushed/ACKed callbacks report the exact totals", "2 events x 4 sizes",
            quick={"params": {"events": 2, "nsizes": 4}}, thorough={"params": {"events": 3, "nsizes": 4}, "max_paths": 400000, "budget": "1500s"}),
          H("pq.VerifQueueReopen", "counters after reopen", "2 events x 3 sizes", quick={"params": {"events": 2, "nsizes": 3}}, thorough={"params": {"events": 2, "nsizes": 6}, "max_paths": 400000, "budget": "1500s"}),
+         H("pq.VerifQueueFIFO", "Reader.Available when events are abandoned (Next after no / partial Read) and when more events arrive at the tail", "2 events x 2 sizes x 3 read modes",
+           quick={"params": {"events": 2, "nsizes": 2, "skip": 1}}, thorough={"params": {"events": 2, "nsizes": 3, "skip": 1}, "max_paths": 400000, "budget": "1500s"}),
          H("pq.VerifQueueFull", "counters on a full file and after draining", "3 sizes"),
      ])
 
@@ -264,6 +282,8 @@ prop("C13", bounds=PQ_BOUNDS + "; one producer goroutine (Write, Next, optional 
             thorough={"params": {"events": 2, "preempt": 2, "nsizes": 2}, "max_paths": 2000000, "budget": "1700s"}),
          HS(50, "pq.VerifQueueConcurrent", "same", "3 events, 1 preemption", tiers=("thorough",),
             thorough={"params": {"events": 3, "preempt": 1, "nsizes": 2}, "max_paths": 2000000, "budget": "1700s"}),
+         H("pq.VerifQueueFIFO", "operation-level interleaving of producer and consumer steps incl. abandoned events and events arriving after the consumer reached the tail (sequential)", "2 events x 2 sizes x 3 read modes",
+           quick={"params": {"events": 2, "nsizes": 2, "skip": 1}}, thorough={"params": {"events": 2, "nsizes": 3, "skip": 1}, "max_paths": 400000, "budget": "1500s"}),
      ])
 
 prop("C18",
@@ -277,4 +297,5 @@ prop("C18",
          H("txfile.VerifPathLock", "lock held exactly while a File is open; second Open fails with a lock error; after Close and after every failing Open the lock is free, no descriptor is left open, the path opens again", "3 steps x 6 step kinds",
            thorough={"params": {"steps": 4}, "max_paths": 400000, "budget": "1200s"}),
          H("txfile.VerifPathLockWait", "FlagWaitLock: the second Open blocks until Close, then succeeds; a plain Open meanwhile fails", "2 goroutines"),
+         H("txfile.VerifPathLockClose", "while File.Close waits for an active transaction the path lock stays held and a second Open fails", "read-only / write transaction"),
      ])
